@@ -20,12 +20,11 @@ def get_deps_paths() -> List[pathlib.Path]:
             "The {} environment variable was not set. Make sure your code is "
             "being executed by Conductor.".format(DEPS_ENV_VARIABLE_NAME)
         )
-    return list(
-        map(
-            pathlib.Path,
-            os.environ[DEPS_ENV_VARIABLE_NAME].split(DEPS_ENV_PATH_SEPARATOR),
-        )
-    )
+    raw_deps = os.environ[DEPS_ENV_VARIABLE_NAME]
+    if len(raw_deps) == 0:
+        # The task has no dependencies with output directories.
+        return []
+    return list(map(pathlib.Path, raw_deps.split(DEPS_ENV_PATH_SEPARATOR)))
 
 
 def get_output_path() -> pathlib.Path:
